@@ -147,7 +147,7 @@ pub L: Vec<Tok> = "a"%(rep2)s;
 def run(tier, seed):
     chk = core.Check("C25", "exploration", tier, seed)
     rng = chk.rng("gen")
-    n = {"quick": 45, "thorough": 500}[tier]
+    n = {"quick": 70, "thorough": 500}[tier]
     subj = subject.Subject(chk.work)
     pairs = []
     specs = []
